@@ -1,2 +1,175 @@
-(** C06 — placeholder while the proofs are being built. *)
-From Verif Require Import Lib.Base Ar.Ops Ar.BytesIO Ar.ArSpec Ar.Model.
+(** C06 — ar members are exact, isolated, file-like views of the archive.
+    Only statements; every proof is [exact <lemma>] (lemmas in Ar/Proofs.v).
+
+    Model: Ar/Model.v ([open_archive], [collect_members], [getmember], [member_op],
+    [ar_step], [ar_run] — the functions [Ar.Check.agree] runs).
+    Spec:  Ar/ArSpec.v ([build], [wf_wmem], [listed_ok], [lookup_ok]) and Ar/BytesIO.v
+    ([bio_op], [op_in_dom], [steps_ok]) — the functions [Ar.Check.holds] uses. *)
+From Coq Require Import String.
+From Verif Require Import Lib.Base Lib.Dec Lib.PyStr Ar.Ops Ar.BytesIO Ar.ArSpec Ar.Model Ar.Proofs
+  Ar.Check Ar.CheckProofs.
+
+Local Open Scope Z_scope.
+
+(** 1. members_listed.  For every list [ws] of members with short names (no '/',
+       no blank at either edge, decimal fields that fit their columns; arbitrary
+       data) and every open mode, the archive [build ws] opens, the listing is
+       exactly [ws] in order with the recorded name, size, owner, group and mtime,
+       and [getmember n] is the index of the LAST member called [n] (KeyError when
+       there is none).  No bound on the number of members or on their size. *)
+Theorem C06_members_listed :
+  forall mode ws,
+    forallb wf_wmem ws = true ->
+    exists ms a,
+      open_archive mode (build ws) = Ok (ms, a)
+      /\ list_forall2b
+           (fun w m => listed_ok w (m_name m) (m_size m) (m_owner m) (m_group m) (m_mtime m))
+           ws ms = true
+      /\ (forall n, lookup_ok ws n (getmember ms n) = true).
+Proof. exact members_listed_build. Qed.
+
+(** ... and the header walk itself, with the data offset of every member *)
+Theorem C06_collect_members_exact :
+  forall k ws,
+    forallb wf_wmem ws = true ->
+    collect_members k (build ws) = Ok (listed 8 ws, lenz (build ws)).
+Proof. exact collect_members_build. Qed.
+
+Theorem C06_getmember_is_last :
+  forall ws pos n,
+    getmember (listed pos ws) n
+    = match last_index n ws with Some j => Ok j | None => Err KeyError end.
+Proof. exact getmember_last. Qed.
+
+(** 2. member_refines_bytesio.
+    (a) One call.  [rel pre data st b]: the member's data sits in the archive
+        between [pre] and [post], its state [st] has [cur - offset = pos] of the
+        reference file [b] over [data].  Every call of the property's alphabet
+        (non-negative seek target, no read(0)) returns what the reference file
+        returns, leaves the two related again and leaves tell() equal — for EVERY
+        position [fh] of the underlying file handle (another member may have moved
+        it: every call re-seeks), in both kinds of underlying file. *)
+Theorem C06_member_step_refines :
+  forall k pre data post fh st b o,
+    rel pre data st b = true -> op_in_dom b o = true ->
+    let res := member_op k (pre ++ data ++ post) fh st o in
+    snd res = as_member_out o (snd (bio_op b o))
+    /\ rel pre data (fst (fst res)) (fst (bio_op b o)) = true
+    /\ m_tell (fst (fst res)) = b_pos (fst (bio_op b o)).
+Proof. exact member_step_refines. Qed.
+
+(** (b) Whole runs.  For every well-formed archive, every open mode (shared
+        BytesIO, by file name, shared real file) and EVERY sequence of calls
+        interleaved across the members in any way, the results and the tell()
+        after every call that [ar_run] produces pass [steps_ok] — the judgement
+        [Ar.Check.holds] applies to the implementation: equal to one in-memory file
+        per member, each over exactly that member's data.  (A call outside the
+        alphabet makes [steps_ok] stop judging that member only; the other members
+        stay judged, so the theorem needs no hypothesis on the calls.) *)
+Theorem C06_member_refines_bytesio :
+  forall mode ws ops,
+    forallb wf_wmem ws = true ->
+    forallb (idx_ok (length ws)) ops = true ->
+    exists ms a,
+      open_archive mode (build ws) = Ok (ms, a)
+      /\ steps_ok (map (fun w => Some (bio_open (w_data w))) ws) ops
+                  (map obs2 (ar_run a ops)) = true.
+Proof. exact run_refines_bytesio. Qed.
+
+(** 3. no_foreign_byte.  Nothing is assumed about the archive bytes [d]: in any
+       archive the reader opens (well-formed or not), after any history [ops] of
+       calls whose seek targets are non-negative ([run_dom]), interleaved across
+       members in any way, whatever call [o] comes next on member [i] returns
+       exactly the bytes of [d] at that member's current position, and unless it
+       returns nothing they lie inside [offset_i, offset_i + size_i).
+       ([ar_run_snoc]: that call's observation is the next element of [ar_run].) *)
+Theorem C06_no_foreign_byte :
+  forall mode d ms a0 ops i o m,
+    open_archive mode d = Ok (ms, a0) ->
+    run_dom a0 ops = true ->
+    nth_error ms i = Some m ->
+    let a := run_state a0 ops in
+    within d (m_offset m) (m_offset m + m_size m) (cur_of a i)
+           (out_bytes (fst (fst (snd (ar_step a (i, o)))))) = true.
+Proof. exact no_foreign_byte_run. Qed.
+
+Theorem C06_run_state_is_ar_run :
+  forall ops a io,
+    ar_run a (ops ++ [io]) = ar_run a ops ++ [snd (ar_step (run_state a ops) io)].
+Proof. exact ar_run_snoc. Qed.
+
+(** the same for one call, any file-handle position *)
+Theorem C06_no_foreign_byte_step :
+  forall k d fh st o,
+    (0 <=? st_off st) && (st_off st <=? st_cur st) = true ->
+    within d (st_off st) (st_end st) (st_cur st) (out_bytes (snd (member_op k d fh st o))) = true.
+Proof. exact no_foreign_byte_step. Qed.
+
+(** 4. The bridge to the correspondence check.  On every well-formed case
+       ([judged_case]: the flag the harness sets, [wf_wmem] for every member it
+       wrote, member indices in range) an observation that agrees with the model
+       ([Ar.Check.agree], which includes: the archive bytes the harness wrote are
+       [build] of those members) passes the property's judgement
+       ([Ar.Check.holds]).  The theorems above are therefore about exactly the
+       functions the check evaluates on the implementation's behaviour. *)
+Theorem C06_agree_implies_holds :
+  forall c, judged_case c = true -> agree c = true -> holds c = true.
+Proof. exact agree_implies_holds. Qed.
+
+(** Non-vacuity: three members (odd size without final LF, duplicate name, empty),
+    calls interleaved across them including the D7 shapes (readline on an
+    unterminated last line, readlines, readline after seeking past the end). *)
+Definition ex_ws : list wmem :=
+  [mkW [97] true 1700000000 1000 1000 (repeat 32 8) [97; 98; 99];          (* "a/"  b"abc"      *)
+   mkW [98; 32; 99] false 0 0 0 [49; 48; 48; 54; 52; 52] [120; 10; 121];   (* "b c" b"x\ny"     *)
+   mkW [97] true 5 6 7 [] []]%N.                                            (* "a/"  b""         *)
+
+Definition ex_ops : list (nat * op) :=
+  [(0, Readline None); (1, Read (Some 1%Z)); (0, Tell); (1, Readlines); (0, Seek 5%Z 0%Z);
+   (0, Readline None); (2, Read None); (1, Seek (-2)%Z 2%Z); (1, Read (Some (-1)%Z));
+   (0, Seek 0%Z 0%Z); (0, Readlines)]%nat.
+
+Example C06_nonvacuous :
+  forallb wf_wmem ex_ws = true
+  /\ forallb (idx_ok (length ex_ws)) ex_ops = true
+  /\ (exists ms a, open_archive 0 (build ex_ws) = Ok (ms, a)
+        /\ map m_name ms = [[97]; [98; 32; 99]; [97]]%N
+        /\ map m_size ms = [3; 3; 0]
+        /\ getmember ms [97%N] = Ok 2%nat
+        /\ run_dom a ex_ops = true
+        /\ map (fun s => fst (fst s)) (ar_run a ex_ops)
+           = [OBytes [97; 98; 99]; OBytes [120]; OInt 3; OLines [[10]; [121]]; ONone;
+              OBytes []; OBytes []; ONone; OBytes [10; 121]; ONone; OLines [[97; 98; 99]]]%N)
+  /\ rel (firstn 68 (build ex_ws)) [97; 98; 99]%N (mkSt 68 71 68) (bio_open [97; 98; 99]%N) = true.
+Proof.
+  split; [reflexivity|]. split; [reflexivity|]. split; [|reflexivity].
+  eexists _, _. split; [vm_compute; reflexivity|]. vm_compute. repeat split.
+Qed.
+
+(** ... and a case as the harness writes it (corpus/C06/interleaved-dup-names.json,
+    observed on the implementation) is a judged case that agrees and holds. *)
+Local Open Scope string_scope.
+Example C06_judged_nonvacuous :
+  let c := ArCase 2%N true
+    [mkWL "a" true 0%N 0%N 0%N "100644  " "x\00000a"; mkWL "a" false 0%N 0%N 0%N "100644  " "yy";
+     mkWL "b" true 0%N 0%N 0%N "100644  " ""]
+    "!<arch>\00000aa/              0           0     0     100644  2         `\00000ax\00000aa               0           0     0     100644  2         `\00000ayyb/              0           0     0     100644  0         `\00000a"
+    ["a"; "b"; "c"]
+    [(1%nat, Read (Some 1%Z)); (0%nat, Readline (Some 1%Z)); (1%nat, Read None); (2%nat, Read None);
+     (0%nat, Seek (-1)%Z 2%Z); (0%nat, Read (Some 5%Z))]
+    (Ok ([mkLL "a" 2 0 0 0 "100644  "; mkLL "a" 2 0 0 0 "100644  "; mkLL "b" 0 0 0 0 "100644  "],
+         [Ok 1%nat; Ok 2%nat; Err KeyError],
+         [(LBytes "y", 1, Some 131); (LBytes "x", 1, Some 69); (LBytes "y", 2, Some 132);
+          (LBytes "", 0, Some 192); (LNone, 1, Some 192); (LBytes "\00000a", 2, Some 70)])) in
+  judged_case c = true /\ agree c = true /\ holds c = true.
+Proof. vm_compute. repeat split. Qed.
+
+Print Assumptions C06_members_listed.
+Print Assumptions C06_collect_members_exact.
+Print Assumptions C06_getmember_is_last.
+Print Assumptions C06_member_step_refines.
+Print Assumptions C06_member_refines_bytesio.
+Print Assumptions C06_no_foreign_byte.
+Print Assumptions C06_run_state_is_ar_run.
+Print Assumptions C06_no_foreign_byte_step.
+Print Assumptions C06_agree_implies_holds.
